@@ -1,6 +1,6 @@
 ------------------------------- MODULE IosGen -------------------------------
 (* Input universes for the IOS family (see AsaGen.tla).                     *)
-EXTENDS AclSem, TLC, Json, SequencesExt
+EXTENDS AclSem, TLC, Json, SequencesExt, Randomization
 
 CONSTANTS Fam, MaxLen
 VARIABLES dev, tgt
@@ -111,7 +111,15 @@ M1 ==
     /\ tgt = [acls |-> [E0_in |-> v4], intfs |-> [E0 |-> I("", "E0_in", "")], routes |-> {}, xe |-> FALSE,
               parts |-> [v4 |-> v4, v6 |-> <<>>, pre |-> pre, app |-> app]]
 
-Init == CASE Fam = "M1" -> M1 [] Fam = "F1" -> F1 [] Fam = "F3" -> F3 [] Fam = "F4" -> F4 [] Fam = "F7" -> F7 [] Fam = "F8" -> F8
+(* F1L: longer ACLs (up to MaxLen lines over 8 overlapping ACEs): a seeded random sample of the  *)
+(* pairs, drawn by TLC (Randomization!RandomSubset, seed = tlc -seed)                             *)
+PoolL == Pool \cup {Ace("permit", "ip", T("host", "h2"), T("host", "h4")), Ace("permit", "udp53", T("net", "n34"), T("any", ""))}
+F1L ==
+  \E a \in RandomSubset(170, InjSeqs(PoolL, MaxLen)), b \in RandomSubset(170, InjSeqs(PoolL, MaxLen)) :
+    /\ dev = Cfg([E0_in |-> a], [E0 |-> I("", "E0_in", "")], {}, FALSE)
+    /\ tgt = Cfg([E0_in |-> b], [E0 |-> I("", "E0_in", "")], {}, FALSE)
+
+Init == CASE Fam = "F1L" -> F1L [] Fam = "M1" -> M1 [] Fam = "F1" -> F1 [] Fam = "F3" -> F3 [] Fam = "F4" -> F4 [] Fam = "F7" -> F7 [] Fam = "F8" -> F8
 Next == UNCHANGED <<dev, tgt>>
 Out == PrintT(<<"VOUT", ToJson([fam |-> Fam, dev |-> dev, tgt |-> tgt, tie |-> FALSE])>>)
 =============================================================================
